@@ -348,14 +348,28 @@ PermLitParams == {[fam |-> "permlit", kind |-> k, perm |-> q, ctx |-> c, rt |-> 
                      k \in {"struct", "word"}, q \in 1..6, c \in {"var", "assign", "elem", "nested", "const"}, r \in BOOLEAN}
                  \ {x \in [fam : {"permlit"}, kind : {"struct", "word"}, perm : 1..6, ctx : {"const"}, rt : {TRUE}] : TRUE}
 
+(**************************** textprint **************************************)
+\* Text goes through a C format string on its way out: characters that mean something THERE (`%`, `%d`, `%s`, `%%`, `%n`, a
+\* lone `%` at the end) in calls with string literals only (one, two or three of them), before and after a call that also
+\* formats a value (ninth round of seeded changes: `%` doubled in text-only calls).
+Texts == << <<"100%">>, <<"%d %s">>, <<"%%">>, <<"a", "%">>, <<"50", "%", " off">>, <<"%n%5c">>, <<"plain">>, <<"%", "%">> >>
+TextPrint(p) ==
+    Program(<<>>, <<>>,
+            <<MainFn(<<VarI("v", PrimT("u8"), Lit("u8", 40))>>
+                      \o (IF p.place = "after" THEN <<Pr(RV("v"))>> ELSE <<>>)
+                      \o <<PrText(Texts[p.text])>>
+                      \o (IF p.place = "before" THEN <<Pr(RV("v"))>> ELSE <<>>)
+                      \o (IF p.twice THEN <<PrText(Texts[p.text])>> ELSE <<>>))>>)
+TextPrintParams == {[fam |-> "textprint", text |-> i, place |-> q, twice |-> w] : i \in 1..Len(Texts), q \in {"only", "before", "after"}, w \in BOOLEAN}
+
 (***************************************************************************)
-Params == PermLitParams \cup DeepBlocksParams \cup LongExprParams \cup BigArrParams \cup BigStructParams \cup Arr3Params \cup ZeroLenParams \cup ViewViewParams \cup IterPtrParams
+Params == TextPrintParams \cup PermLitParams \cup DeepBlocksParams \cup LongExprParams \cup BigArrParams \cup BigStructParams \cup Arr3Params \cup ZeroLenParams \cup ViewViewParams \cup IterPtrParams
             \cup LoopLocalParams \cup WordCopyParams
 Build(p) == CASE p.fam = "bigarr" -> BigArr(p) [] p.fam = "bigstruct" -> BigStruct(p) [] p.fam = "arr3" -> Arr3(p)
               [] p.fam = "zerolen" -> ZeroLen(p) [] p.fam = "viewview" -> ViewView(p) [] p.fam = "iterptr" -> IterPtr(p)
               [] p.fam = "looplocal" -> LoopLocal(p) [] p.fam = "wordcopy" -> WordCopy(p)
               [] p.fam = "deepblocks" -> DeepBlocks(p) [] p.fam = "longexpr" -> LongExpr(p)
-              [] p.fam = "permlit" -> PermLit(p)
+              [] p.fam = "permlit" -> PermLit(p) [] p.fam = "textprint" -> TextPrint(p)
 
 None == [fam |-> ""]
 VARIABLES par, prog, res, done
